@@ -24,3 +24,31 @@ func Verif_T0_parse() {
 		V.Reach("error")
 	}
 }
+
+func Verif_T0_assume() {
+	p := V.Bytes("P", 4)
+	maxIHL := V.ParamInt("maxIHL", 5)
+	V.Assume(p[0]>>4 == 4)
+	V.Assume(int(p[0]&0xf) <= maxIHL)
+	ihl := p[0] & 0xf
+	V.Assert(ihl <= 5, "T0/ihl")
+	if ihl*4 > 20 {
+		V.Fail("T0/unreachable")
+	}
+	V.Reach("end")
+}
+
+func Verif_T0_parse5() {
+	L := V.ParamInt("L", 28)
+	p := V.Bytes("P", L)
+	V.Assume(p[0]>>4 == 4)
+	V.Assume(int(p[0]&0xf) <= 5)
+	fp := NewFrameParser()
+	err := fp.Parse(p)
+	if err == nil {
+		V.Reach("parsed")
+		V.Assert(fp.IP4.IHL == 5, "T0/ihl5")
+	} else {
+		V.Reach("error")
+	}
+}
